@@ -247,7 +247,7 @@ func (sf *SpecFile) resolveLikes() error {
 			c.Uses = append(append([]SCall(nil), t.Uses...), c.Uses...)
 			c.DefaultInv = append(append([]Clause(nil), t.DefaultInv...), c.DefaultInv...)
 			if c.TracedArg == nil {
-				c.TracedArg, c.TracedRes, c.TracedRes2 = t.TracedArg, t.TracedRes, t.TracedRes2
+				c.TracedArg, c.TracedRes, c.TracedRes2, c.TracedRes3 = t.TracedArg, t.TracedRes, t.TracedRes2, t.TracedRes3
 			}
 		}
 		done[c.Key] = true
